@@ -64,6 +64,7 @@ func itoaI(n int) string { return strconv.Itoa(n) }
 func init() {
 	Plans["C01"] = planC01
 	Plans["C19"] = planC19
+	Plans["C13"] = planC13
 }
 
 func planC01(tier string, seed int64) (*Plan, error) {
@@ -148,5 +149,35 @@ func planC19(tier string, seed int64) (*Plan, error) {
 		"outside":                  "longer inputs; keys longer than 2 bytes; histories longer than 6 operations",
 	}
 	p.Rule = "one job per (function, length/template); all paths of each job explored"
+	return p, nil
+}
+
+const astPkg = "github.com/yuin/goldmark/ast"
+
+func planC13(tier string, seed int64) (*Plan, error) {
+	p := &Plan{MustReach: []string{"done", "append", "insert-before", "insert-after", "replace", "remove", "remove-children"}}
+	kStep, kWalk, kHist, steps := 4, 3, 3, 2
+	if tier == "thorough" {
+		kStep, kWalk, kHist, steps = 5, 4, 3, 3
+	}
+	for k := 1; k <= kStep; k++ {
+		p.Jobs = append(p.Jobs, pjob(astPkg, "VerifH_c13_step", "k", k))
+	}
+	for k := 1; k <= kStep; k++ {
+		p.Jobs = append(p.Jobs, pjob(astPkg, "VerifH_c13_sort", "k", k))
+	}
+	for k := 1; k <= kWalk; k++ {
+		p.Jobs = append(p.Jobs, pjob(astPkg, "VerifH_c13_walk", "k", k))
+	}
+	p.Jobs = append(p.Jobs, pjob(astPkg, "VerifH_c13_history", "k", kHist, "steps", steps))
+	p.Bounds = map[string]interface{}{
+		"one-step": fmt.Sprintf("every ordered forest over K<=%d nodes (pre-state written directly into BaseNode fields) x every mutator among AppendChild/InsertBefore/InsertAfter/ReplaceChild/RemoveChild/RemoveChildren x every operand choice (self, v1 in pool or nil, insertee), under the documented preconditions (not into own subtree, not relative to itself)", kStep),
+		"sort":     fmt.Sprintf("SortChildren on every forest over K<=%d nodes with symbolic keys in 0..2 per node", kStep),
+		"walk":     fmt.Sprintf("Walk from every node of every forest over K<=%d nodes with every walker script (status in Stop/SkipChildren/Continue x error or not, per visit)", kWalk),
+		"history":  fmt.Sprintf("all operation sequences of length %d over %d initially detached nodes", steps, kHist),
+		"outside":  "larger pools; node types other than Paragraph (BaseNode is shared by all); SortChildren comparators that are not a total preorder",
+	}
+	p.Assumptions = []string{"pre-states are well-formed forests (representation invariant: parent/sibling/first/last/childCount agree); one step from an arbitrary well-formed state covers histories of any length over the pool"}
+	p.Rule = "shape, operation and operands are solver-enumerated choices (IntRange + concretisation); each path is one (forest, call) pair"
 	return p, nil
 }
